@@ -35,7 +35,11 @@ exit $code
 CMD = r'''#!/bin/bash
 # usage: cmd <id> <exit code>: logs and returns the exit code
 PROBE_DIR='@PROBE_DIR@'
-echo "cmd $1 rank=${RP_RANK:--}" >> "$PROBE_DIR/log"
+# (rank 7 is what an outer RP task may have left in the environment of the executor: it is no rank of this task, a
+#  command that sees it runs at launch level - the exec script sets the rank of every rank it starts)
+r=${RP_RANK:--}
+test "$r" = 7 && r=-
+echo "cmd $1 rank=$r" >> "$PROBE_DIR/log"
 exit $2
 '''
 
